@@ -1,6 +1,7 @@
 package main
 
 import (
+	"bytes"
 	"context"
 	"flag"
 	"fmt"
@@ -164,7 +165,7 @@ func replRun(tr *tracer.T, rng *rand.Rand, nOps int, class int, variant int) {
 	}
 	defer func() { setStall(false); fsm.VerifUpdateHook = nil }()
 	maxMsg := []uint64{0, 300 * 1024, 1024 * 1024, 64 * 1024}[rng.Intn(4)]
-	lc, err := eng.New(1, []int{0, 8}[rng.Intn(2)], func(i int, c *storage.Config) {
+	lc, err := eng.New(1, []int{0, 8, 64, 1000}[rng.Intn(4)], func(i int, c *storage.Config) {
 		c.Table.SnapshotEntries = 0 // snapshots / compaction only when the driver asks
 	})
 	if err != nil {
@@ -214,7 +215,8 @@ func replRun(tr *tracer.T, rng *rand.Rand, nOps int, class int, variant int) {
 	}
 	var mu sync.Mutex
 	var writes []lWrite
-	keys := [][]byte{[]byte("a"), []byte("b"), []byte("c"), []byte("flag")}
+	// (the last two: the largest keys the API accepts, at the very end of the keyspace)
+	keys := [][]byte{[]byte("a"), []byte("b"), []byte("c"), []byte("flag"), bytes.Repeat([]byte{0xff}, 1019), bytes.Repeat([]byte{0xff}, 1024)}
 	ctxT := func() (context.Context, context.CancelFunc) {
 		return context.WithTimeout(context.Background(), 10*time.Second)
 	}
@@ -437,6 +439,50 @@ func replRun(tr *tracer.T, rng *rand.Rand, nOps int, class int, variant int) {
 			time.Sleep(700 * time.Microsecond)
 		}
 	}()
+	// ANOTHER follower cluster tails the same table: a client of the real Log service that keeps asking for the newest
+	// entries (and throws them away) - it shapes the leader's log cache while the follower under test catches up
+	tailStop := make(chan struct{})
+	var twg sync.WaitGroup
+	twg.Add(1)
+	go func() {
+		defer twg.Done()
+		conn, err := grpc.Dial(env.addr, grpc.WithTransportCredentials(insecure.NewCredentials()), grpc.WithDefaultCallOptions(grpc.MaxCallRecvMsgSize(16*1024*1024)))
+		if err != nil {
+			return
+		}
+		defer conn.Close()
+		cl := regattapb.NewLogClient(conn)
+		next := uint64(1)
+		for {
+			select {
+			case <-tailStop:
+				return
+			case <-time.After(time.Duration(2+rand.Intn(6)) * time.Millisecond):
+			}
+			mu.Lock()
+			for _, w := range writes {
+				if w.table == "t1" && w.rev >= next {
+					next = w.rev // start near the tail, as a follower that has been following all along
+				}
+			}
+			mu.Unlock()
+			ctx, cancel := context.WithTimeout(context.Background(), 2*time.Second)
+			st, err := cl.Replicate(ctx, &regattapb.ReplicateRequest{Table: []byte("t1"), LeaderIndex: next})
+			if err == nil {
+				for {
+					m, err := st.Recv()
+					if err != nil {
+						break
+					}
+					if c := m.GetCommandsResponse(); c != nil && len(c.Commands) > 0 {
+						next = c.Commands[len(c.Commands)-1].LeaderIndex + 1
+					}
+				}
+			}
+			cancel()
+		}
+	}()
+	defer func() { close(tailStop); twg.Wait() }()
 	env.startFollowerReplication()
 	time.Sleep(time.Duration(100+rng.Intn(200)) * time.Millisecond)
 	if class == 1 {
@@ -527,7 +573,12 @@ func replRun(tr *tracer.T, rng *rand.Rand, nOps int, class int, variant int) {
 				break
 			}
 			setStall(true)
-			onceMarkers("t1", 2+rng.Intn(3))
+			// the first proposal (markers A) parks in the state machine and times out; the leader goes on (markers B),
+			// so the next proposals carry A again TOGETHER with B, and are themselves proposed more than once: after
+			// the stall the first copy of B and its repetitions are applied in ONE Update batch
+			onceMarkers("t1", 1+rng.Intn(3))
+			time.Sleep(env.logTimeout*3/2 + time.Duration(rng.Intn(40))*time.Millisecond)
+			onceMarkers("t1", 1+rng.Intn(3))
 			time.Sleep(env.logTimeout*time.Duration(2+rng.Intn(2)) + time.Duration(rng.Intn(60))*time.Millisecond)
 			setStall(false)
 			for j := 0; j < 5; j++ {
